@@ -116,10 +116,44 @@ def diag(ev, ir=None):
     return d
 
 
+def alias_program(rng):
+    """a call that receives two views of one buffer, possibly through a chain of window
+    statements (unsafe twin) or two different buffers (safe)"""
+    from ..gen_prog import GenProgram, HEADER
+
+    n = rng.choice([4, 5])
+    chain = rng.choice([1, 2, 2])
+    unsafe = rng.random() < 0.6
+    src_buf = "x" if unsafe else "z"
+    lines = [f"a = {src_buf}[0:{n + 2}]"]
+    last = "a"
+    if chain == 2:
+        lines.append(f"b = a[1:{n + 1}]")
+        last, hi = "b", n
+        arg2 = "b"
+    else:
+        arg2 = f"a[1:{n + 1}]"
+    body = "\n    ".join(lines)
+    text = HEADER + f"""@proc
+def copyn(dst: [f32][{n}], src: [f32][{n}]):
+    for i in seq(0, {n}):
+        dst[i] = src[i] + 1.0
+
+@proc
+def root(x: f32[{n + 2}], z: f32[{n + 2}]):
+    {body}
+    copyn(x[0:{n}], {arg2})
+"""
+    return GenProgram(text, "root", ["copyn"], [], {"twin_site": f"aliasing through a {chain}-level window chain" if unsafe else None, "knobs": {}})
+
+
 def one(ctx, rng, ninputs):
     twin = rng.random() < 0.6
     try:
-        gp = gen_program(rng, knobs(rng, twin))
+        if rng.random() < 0.06:
+            gp = alias_program(rng)
+        else:
+            gp = gen_program(rng, knobs(rng, twin))
     except Exception:
         ctx.stat("gen.error")
         return
